@@ -58,6 +58,9 @@ def fields(nrows, ncols, seed, few=False):
     inv = _flow.invalid_code(seed)
     f = [("default", None, None, 0),
          ("cell+1", [float(c + 1) for c in range(ntot)], -999.0, 0)]
+    if few and ntot > 64:
+        # long strips: a count can reach a typical 8-bit no-data marker
+        f.append(("default:fdnodata=255", None, None, 255))
     if not few:
         f += [("uniform0.25", [0.25] * ntot, -999.0, 0),
               ("posneg", [pat[(c + seed) % 3] for c in range(ntot)], -999.0, 0),
@@ -68,12 +71,14 @@ def fields(nrows, ncols, seed, few=False):
     return f
 
 
-def check_grid(ctx, nrows, ncols, codes, seed, few=False):
+def check_grid(ctx, nrows, ncols, codes, seed, few=False, strip=None):
     from hydrodiy.gis.grid import Grid, accumulate
     ntot = nrows * ncols
     m = FlowModel(nrows, ncols, codes)
     cyclic = m.has_cycle()
     base = {"shape": [nrows, ncols], "codes": list(codes), "seed": seed}
+    if strip is not None and nrows * ncols > 64:
+        base = {"shape": [nrows, ncols], "codes": None, "strip": strip, "seed": seed}
     ctx.states += 1
     nontriv = (not cyclic) and any(d >= 0 for d in m.down)
     arr = np.array(codes, dtype=np.int64).reshape(nrows, ncols)
@@ -161,6 +166,22 @@ def check_grid(ctx, nrows, ncols, codes, seed, few=False):
 
 
 def run_unit(unit, ctx):
+    if unit["kind"] == "strip":
+        from checks import c06_delineate as c6
+        n = unit["n"]
+        if n > 1000:
+            return
+        for i, (horizontal, field, dev) in enumerate(c6.strip_cases(n)):
+            if not ctx.sup.begin(i):
+                continue
+            codes = c6.strip_codes(n, horizontal, field, dev)
+            nr, nc = (1, n) if horizontal else (n, 1)
+            if i == 0:
+                ctx.case(False, n=0, sample={"shape": [nr, nc], "strip": {"n": n, "horizontal": horizontal, "field": field, "dev": dev}, "seed": unit["seed"]})
+            ctx.count("strip_grids")
+            check_grid(ctx, nr, nc, codes, unit["seed"], few=(n > 64), strip={"n": n, "horizontal": horizontal, "field": field, "dev": dev})
+            ctx.sup.end()
+        return
     nrows, ncols = unit["shape"]
     few = (nrows, ncols) == (3, 3) and unit.get("kind") == "grids"
     first = True
@@ -175,6 +196,14 @@ def run_unit(unit, ctx):
 
 
 def crash_violation(unit, idx, status, stderr):
+    if unit["kind"] == "strip":
+        from checks import c06_delineate as c6
+        cases = list(c6.strip_cases(unit["n"]))
+        h, f, d = cases[idx] if idx is not None and idx < len(cases) else (None, None, None)
+        n = unit["n"]
+        return ("grid:%s:strip" % ("hang" if "timeout" in status else "crash"),
+                {"shape": [1, n] if h else [n, 1], "codes": None, "seed": unit["seed"], "strip": {"n": n, "horizontal": h, "field": f, "dev": d}},
+                "the interpreter did not survive accumulate on a %d-cell strip grid: %s" % (n, status))
     codes = None
     for i, g in enumerate(unit_grids(unit)):
         if i == idx:
@@ -189,5 +218,11 @@ def replay(case):
     from mc.explore import Result
     ctx = Result()
     nrows, ncols = case["shape"]
+    if case.get("strip"):
+        from checks import c06_delineate as c6
+        st = case["strip"]
+        codes = c6.strip_codes(st["n"], st["horizontal"], st["field"], st["dev"])
+        check_grid(ctx, nrows, ncols, codes, case.get("seed", 0), few=(st["n"] > 64), strip=st)
+        return [v for lst in ctx.violations.values() for v in lst]
     check_grid(ctx, nrows, ncols, case["codes"], case.get("seed", 0))
     return [v for lst in ctx.violations.values() for v in lst]
